@@ -386,3 +386,39 @@ def family(prog, fn, depth=3):
                 nxt.append(h)
         frontier = nxt
     return out
+
+
+def only_called_from(f, permitted, depth=0):
+    """f is a static helper all of whose callers are in `permitted` (or are static
+    helpers of which the same holds) and whose address is never taken: what f does
+    is done on behalf of the permitted functions only"""
+    if not getattr(f, 'static', False) or depth > 3:
+        return False
+    callers = [g for g in f.tu.fn_list if any(c.get('callee') == f.name for c in g.calls())]
+    if not callers:
+        return False
+    for g in f.tu.fn_list:
+        for n in g.all_nodes():
+            if n['k'] == 'ref' and n.get('name') == f.name:
+                par = g.parent(n)
+                if not (par is not None and par['k'] == 'call' and g.kid(par, 0) is n) and \
+                        not (par is not None and par['k'] == 'call' and par.get('callee') == f.name):
+                    return False
+    return all(g.name in permitted or only_called_from(g, permitted, depth + 1) for g in callers)
+
+
+def helpers_reaching(prog, fn, target, depth=3):
+    """names of the static same-unit helpers of fn (see `family`) through which fn
+    reaches a call of `target`"""
+    out = set()
+    fam = family(prog, fn, depth)
+    changed = True
+    while changed:
+        changed = False
+        for h in fam[1:]:
+            if h.name in out:
+                continue
+            if any(c.get('callee') == target or c.get('callee') in out for c in h.calls()):
+                out.add(h.name)
+                changed = True
+    return out
